@@ -9,6 +9,7 @@ pub mod c09;
 pub mod c10;
 pub mod c11;
 pub mod c12;
+pub mod c15;
 pub mod c16;
 pub mod c17;
 pub mod c18;
@@ -28,6 +29,7 @@ pub fn run(ctx: &Ctx) -> i32 {
         "C10" => c10::run(ctx),
         "C11" => c11::run(ctx),
         "C12" => c12::run(ctx),
+        "C15" => c15::run(ctx),
         "C16" => c16::run(ctx),
         "C17" => c17::run(ctx),
         "C18" => c18::run(ctx),
@@ -51,6 +53,7 @@ pub fn replay(id: &str, payload: &serde_json::Value) -> bool {
         "C10" => c10::replay(payload),
         "C11" => c11::replay(payload),
         "C12" => c12::replay(payload),
+        "C15" => c15::replay(payload),
         "C16" => c16::replay(payload),
         "C17" => c17::replay(payload),
         "C18" => c18::replay(payload),
